@@ -70,6 +70,14 @@ func arrOps() []arrOp {
 		{"0.5", func() *model.N { return num(0.5) }},
 		{`"x"`, func() *model.N { return model.Str("x") }},
 		{"nil", model.Nil},
+		{"true", func() *model.N { return model.Bool(true) }},
+		{"false", func() *model.N { return model.Bool(false) }},
+		{"0<1", func() *model.N { return model.Grp(model.Bin("<", num(0), num(1))) }},
+		{"[0]", func() *model.N { return model.Arr(num(0)) }},
+		{"{}", func() *model.N { return model.Obj(nil, nil) }},
+		{"function", func() *model.N { return id("poke") }},
+		{"builtin", func() *model.N { return id(model.BiLen) }},
+		{`""`, func() *model.N { return model.Str("") }},
 		{"1+1e-10", func() *model.N { return model.NumT("1.0000000001") }},
 		{"1-1e-10", func() *model.N { return model.NumT("0.9999999999") }},
 		{"-1e-10", func() *model.N { return model.Un("-", model.NumT("0.0000000001")) }},
